@@ -183,6 +183,10 @@ func (mr *modelRun) selected(p *Plan, path string, b *Branch, idx int) []string 
 // statePath is the path of the graph whose state the handlers of this node use.
 func (mr *modelRun) execNode(p *Plan, path, statePath string, n *Node, in M) (M, string) {
 	full := joinPath(path, n.Key)
+	if n.InKey != "" {
+		inner, _ := in[n.InKey].(M) // (its only data source always wraps its output in that key)
+		in = inner
+	}
 	if n.Pre != HNone {
 		in = clone(in)
 		if in == nil {
